@@ -43,11 +43,11 @@ var c07Letters = func() []c07Letter {
 	plain := func(name string, f func(d ivg.Destination, set int)) {
 		ls = append(ls, c07Letter{name, func(g *generate.Generator, set int) error { f(g, set); return nil }})
 	}
-	for _, s := range []uint8{0, 9, 10, 62, 63} {
+	for _, s := range []uint8{0, 9, 10, 62, 63, 74} { // 74 = 64+10: arguments are reduced modulo 64
 		s := s
 		plain(fmt.Sprintf("SetCSel(%d)", s), func(d ivg.Destination, set int) { d.SetCSel(s) })
 	}
-	for _, s := range []uint8{0, 9, 10, 63} {
+	for _, s := range []uint8{0, 9, 10, 63, 201} {
 		s := s
 		plain(fmt.Sprintf("SetNSel(%d)", s), func(d ivg.Destination, set int) { d.SetNSel(s) })
 	}
@@ -130,7 +130,7 @@ func init() {
 	mc.Register(&mc.Check{
 		ID:    "C07",
 		Level: "model_checking",
-		Rule: fmt.Sprintf("engine S: every history of <=5 (thorough <=6) letters over a %d-letter alphabet (SetCSel/SetNSel at {0,9,10,62,63}, incrementing and non-incrementing register writes, CSel()/NSel() read-backs, Generator helpers SetGradient (2 and 3 stops), SetLinearGradient, SetCircularGradient, SetEllipticalGradient, SetPathData, a probe path), run in lock step through Generator->Renderer and Generator->Encoder->Decode->Renderer (histories <=3 also through DestinationLogger), two argument sets (dyadic, non-dyadic). ", nl) +
+		Rule: fmt.Sprintf("engine S: every history of <=5 (thorough <=6) letters over a %d-letter alphabet (SetCSel/SetNSel at {0,9,10,62,63} and at arguments >= 64 (74, 201), incrementing and non-incrementing register writes, CSel()/NSel() read-backs, Generator helpers SetGradient (2 and 3 stops), SetLinearGradient, SetCircularGradient, SetEllipticalGradient, SetPathData, a probe path), run in lock step through Generator->Renderer and Generator->Encoder->Decode->Renderer (histories <=3 also through DestinationLogger), two argument sets (dyadic, non-dyadic). ", nl) +
 			"After every call the Encoder's and the Renderer's CSel()/NSel() must agree modulo 64 with each other and with the specification VM; helper return values must agree; at the end both recording rasterisers must hold the same calls and paints (bit-equal for the dyadic set, within the C01 tolerance otherwise). " +
 			"states = histories executed, transitions = letters executed; non-trivial = history containing a gradient helper or an incrementing write followed by a read-back",
 		Assumptions: []string{"non-dyadic argument set: rasteriser coordinates compared within 2^-17 relative to the raster size, gradient matrices within 2^-19 relative"},
@@ -212,9 +212,11 @@ func (st *c07State) check(cs *c07Case) {
 	var z3 render.Renderer
 	var ras3 rec.Raster
 	var g3 generate.Generator
+	var lg *ivg.DestinationLogger
 	if cs.Logger {
 		z3.SetRasterizer(&ras3, c07Rect)
-		g3.SetDestination(&ivg.DestinationLogger{Destination: &z3})
+		lg = &ivg.DestinationLogger{Destination: &z3}
+		g3.SetDestination(lg)
 		g3.Reset(ivg.DefaultViewBox, ivg.DefaultPalette)
 	}
 	var vm ref.VM
@@ -261,6 +263,12 @@ func (st *c07State) check(cs *c07Case) {
 		if rc&63 != vm.CSel || rn&63 != vm.NSel {
 			fail("renderer-selector:"+L.name, fmt.Sprintf("after letter %d %s the Renderer reports CSEL=%d NSEL=%d, the machine holds CSEL=%d NSEL=%d", i, L.name, rc, rn, vm.CSel, vm.NSel))
 			return
+		}
+		if lg != nil {
+			if lc, ln := lg.CSel(), lg.NSel(); lc&63 != vm.CSel || ln&63 != vm.NSel {
+				fail("logger:selector", fmt.Sprintf("after letter %d %s the DestinationLogger reports CSEL=%d NSEL=%d, the machine holds CSEL=%d NSEL=%d", i, L.name, lc, ln, vm.CSel, vm.NSel))
+				return
+			}
 		}
 		if l >= len(c07Letters)-8 && l < len(c07Letters)-3 {
 			nt = true
